@@ -405,6 +405,26 @@ func runC19(c *run.Ctx) {
 		c.Case("dbg-"+pc.ID, func() { checkDebug(c, pc.ID, pc.E, pc.Env, pc.User, nil) })
 	}
 	sameSourceDebug(c)
+	// long single lines: recorded terms 200..560 columns apart
+	for k := 200; k <= 560; k++ {
+		if !c.Mine(k) || (c.Tier == "quick" && (k < 236 || k > 276) && (k < 500 || k > 524)) {
+			continue
+		}
+		k := k
+		c.Case(fmt.Sprintf("long-line/%d", k), func() {
+			g := &ref.Gen{R: c.Rng("longline", k)}
+			env, host := c19Env(g)
+			pad := strings.Repeat("a", k)
+			progs := []*ref.E{
+				ref.CallF(ref.FInfix, "+", ref.CallF(ref.FInfix, "+", ref.Ident("s"), ref.Str(pad)), ref.Ident("晓明")),
+				ref.CallF(ref.FInfix, "==", ref.Call("len", ref.Str(pad)), ref.CallF(ref.FInfix, "+", ref.Ident("n"), ref.Ident("k"))),
+				ref.List(ref.Ident("n"), ref.Call("len", ref.Str(pad[:k/2])), ref.Ident("k"), ref.Call("len", ref.Str(pad[:k/2])), ref.Ident("名")),
+			}
+			for pi, e := range progs {
+				checkDebug(c, fmt.Sprintf("long-line/%d/%d", k, pi), e, env, nil, host)
+			}
+		})
+	}
 	for i, pc := range permCases() {
 		if !c.Mine(i) || (c.Tier == "quick" && i%2 != 0) {
 			continue
@@ -508,7 +528,7 @@ func init() {
 	run.Register(&run.Spec{
 		ID: "C19", Run: runC19, Level: "exploration",
 		Rule: "generated single-line programs (80% sugared; ASCII, CJK and emoji identifiers and strings; values that render on several lines; 8% failing sub-terms; unevaluated lazy branches) with and without harness functions, the laziness families and the field-permutation families, run through closure.DebugCompile with a fresh record, with a record that already served one evaluation, or after the compiled closure served another record (hook: entries) and, for built-in-only programs over host data, through yae.Debug; " +
-			"monitor: result / failure equals normal evaluation (reference evaluator, vm, closure); recorded entries == the reference evaluator's log of (value, column) for every identifier, call, member and subscript actually evaluated, in evaluation order, columns from the harness's own rendering (identifier start; operator, '?' or '(' of a call; '['; '.'); report: never fails, first line is the source, every recorded value appears at its column (multi-line values on consecutive lines); yae.Debug report == report of the same record; 18 sources debugged repeatedly in one process through yae.Debug over 10 host environments that differ only in nested types (typed containers, and interface-typed containers of identical Go type) (every rotation): each call agrees with yae.Eval of the same source over the same data. distinct = distinct source",
+			"monitor: result / failure equals normal evaluation (reference evaluator, vm, closure); recorded entries == the reference evaluator's log of (value, column) for every identifier, call, member and subscript actually evaluated, in evaluation order, columns from the harness's own rendering (identifier start; operator, '?' or '(' of a call; '['; '.'); report: never fails, first line is the source, every recorded value appears at its column (multi-line values on consecutive lines); yae.Debug report == report of the same record; single lines of 200..560 columns with recorded terms on both sides of every multiple of 256; 18 sources debugged repeatedly in one process through yae.Debug over 10 host environments that differ only in nested types (typed containers, and interface-typed containers of identical Go type) (every rotation): each call agrees with yae.Eval of the same source over the same data. distinct = distinct source",
 		Assume:    []string{"lazy host functions that force one thunk twice are excluded (a second record of one term has no column of its own)"},
 		MinEvents: 1000, EventKey: "debug_runs",
 	})
